@@ -159,6 +159,25 @@ def ofCentre (c : Pt) : Sexp := .list [ofRat c.1, ofRat c.2]
 
 def prodNat (xs : List Nat) : Nat := xs.foldl (· * ·) 1
 
+def rabs (x : Rat) : Rat := if x < 0 then -x else x
+
+/-- Conditioning of the shoelace sums of a polygon: `1 + Σ|dᵢ| / |Σ dᵢ|` (`dᵢ` the cross products of
+consecutive offsets from the mean).  The double-precision centroid carries an absolute error of about
+`2⁻⁵³ · extent · κ²`; the recorded centre tolerance is multiplied by `κ²` (κ is 1–3 for ordinary
+polygons and large only when positive and negative lobes cancel). -/
+def polyCond (vs : List Pt) : Rat :=
+  let o := offsets (polyMean vs) (polyCore vs)
+  match o.getLast? with
+  | none => 1
+  | some l =>
+    let ds := ((l :: o).zip o).map fun (ab : Pt × Pt) => ab.1.1 * ab.2.2 - ab.1.2 * ab.2.1
+    let a2 := rabs (sumList ds)
+    if a2 = 0 then 1 else 1 + sumList (ds.map rabs) / a2
+
+def centreTolFactor : Roi → Rat
+  | .poly g => polyCond g.vs * polyCond g.vs
+  | _ => 1
+
 /-! ### discretisation family helpers -/
 
 /-- rational lower bound of `cos(π/99)` (= 0.999496…): a 99-segment polygon inscribed in a circle of
@@ -222,6 +241,7 @@ def stepOps (roiE opsE ptsE epsE tolE pyout : Sexp) : String :=
       | some q => roi.near q ε
       | none => false
     let mc := fin.center
+    let tolc := tolc * centreTolFactor fin
     let hyp := inHyp fin ε && inHyp roi ε &&
       ops.all fun o => match o with | .rotate c s => isUnit c s | _ => true
     let kinds := roiKind roi ++ "→" ++ roiKind fin
